@@ -1491,6 +1491,17 @@ func probeRereg() bool {
 	return w.tr[1].closed
 }
 
+// true iff UpdateAuth removes the connection the client id resolved to before (eviction and indexing in one critical section)
+func probeUpdateAuthEvicts() bool {
+	ops := [][]int{{opAccept, 1}, {opAccept, 2}, {opRegRaw, 1, 0}, {opRegRaw, 2, 0}, {opAuthRaw, 1, 7}, {opAuthRaw, 2, 7}}
+	w := newWorld(cfgIn{Tmo: 2}, ops)
+	defer w.close()
+	for _, o := range ops {
+		w.apply(o)
+	}
+	return w.sm.GetControlConnection("c1") == nil && w.tr[1].closed
+}
+
 func gen() {
 	fmt.Println("(* generated by verif_c07 gen from /repo's working tree — do not edit *)")
 	fmt.Println("From Coq Require Import NArith List. Import ListNotations. Open Scope N_scope.")
@@ -1505,6 +1516,7 @@ func gen() {
 	fmt.Printf("Definition probe_reauth_keeps_old_index : bool := %v.\n", probeReauth())
 	fmt.Printf("Definition probe_limit_evicts_oldest : bool := %v.\n", probeEvict())
 	fmt.Printf("Definition probe_rereg_closes_shared_stream : bool := %v.\n", probeRereg())
+	fmt.Printf("Definition probe_updateauth_evicts_holder : bool := %v.\n", probeUpdateAuthEvicts())
 	names, shapes := lockShapes()
 	fmt.Println("(* lock shape of every ClientRegistry method (go/ast over client_registry.go): 0 no lock needed / *Locked helper, 1 Lock+defer Unlock,")
 	fmt.Println("   2 one Lock..Unlock pair, 3/4 the same with RLock, 7 map access outside the locked region, 8 unprotected access, 9 mutex acquired more than once *)")
